@@ -277,10 +277,15 @@ class FrameOf(Unit):
     def setup(self, ctx, case):
         return self.base.setup(ctx, case)
 
+    def _own_file_clause(self):
+        # a unit whose own contract states `saved file = returned value` on values this generic clause cannot read (a dict of frames):
+        # the file clause is left to the owning property (nothing is claimed here; layer 1 still decides it on the AST)
+        return bool(getattr(self.base, "file_clause_in_own_contract", False))
+
     def clause_names(self, case):
         if getattr(self.base, "may_only_raise", lambda c: False)(case):
             return []
-        return ["frame:no-store-event-on-an-input-cell", "file=returned"]
+        return ["frame:no-store-event-on-an-input-cell"] + ([] if self._own_file_clause() else ["file=returned"])
 
     def ensures(self, ctx, case, inp, out):
         st = out.state
@@ -291,6 +296,8 @@ class FrameOf(Unit):
         for ev in stores:
             # the store can happen iff its path condition is satisfiable together with the preconditions
             yield "frame:no-store-event-on-an-input-cell", _infeasible(ev)
+        if self._own_file_clause():
+            return
         # file = returned: every saved array equals, at an arbitrary index, a returned array of the same rank
         saves = [e for e in st.trace if e and e[0] in ("np.save", "np.savetxt") and isinstance(e[2], A.Arr)]
         # auxiliary files that by their documentation hold data other than the returned value (same table as layer 1)
